@@ -252,10 +252,16 @@ def history3(o1: int, o2: int, o3: int) -> bool:
 	return ok(natively(run_history, [decode(o1, NOPS), decode(o2, NOPS), decode(o3, NOPS)]))
 
 
+# operations that change a container (bind / rebind, unbind, combine): the second operation of the four-step histories is taken from
+# these (an observation in second place adds nothing a three-step history has not shown)
+STATE_CHANGING = [i for i, o in enumerate(OPS) if o[0] in ('set', 'unbind', 'combine')]
+
+
 def history4(o1: int, o2: int, o3: int, o4: int) -> bool:
 	"""
 	pre: 0 <= o1 < NOPS and 0 <= o2 < NOPS and 0 <= o3 < NOPS and 0 <= o4 < NOPS
 	pre: first_ok(o1)
+	pre: o2 in STATE_CHANGING
 	post: _
 	"""
 	return ok(natively(run_history, [decode(o1, NOPS), decode(o2, NOPS), decode(o3, NOPS), decode(o4, NOPS)]))
